@@ -348,6 +348,7 @@ type StepRecord struct {
 	Panic        string
 	CurSet       *GSet // model's current set after the step
 	QuorumEvents int
+	LoopbackLost bool // the node broadcast its own observation but never offered it to its own observation queue
 }
 
 func ReadStore(d *db.Database, msgs []*Msg, extra []vaa.VAAID) map[string][]byte {
@@ -408,6 +409,9 @@ func RunDirect2(rig *Rig, sc *Scenario, md *Model, pre func(int, Event), cb func
 				rig.P.VerifSetGuardianSet(sc.Sets[e.Set].Common())
 			case "msg":
 				rec.Expect = md.OnMsg(sc.Msgs[e.Msg])
+				if e.Variant == "burst" { // the observation queue is full of gossip at this moment
+					rig.FillObsvQueue()
+				}
 				rig.P.VerifHandleMessage(rig.Ctx, sc.Msgs[e.Msg].Pub)
 			case "loopback":
 				q := pending[e.Msg]
@@ -428,13 +432,33 @@ func RunDirect2(rig *Rig, sc *Scenario, md *Model, pre func(int, Event), cb func
 			}
 		}()
 		rec.Out = rig.DrainSend()
-		if e.Kind == "msg" {
+		if e.Kind == "msg" && e.Variant == "burst" {
+			// the burst is worked off; the node's own signature must come through once there is room
+			got := rig.DrainObsvQueue(20 * time.Millisecond)
+			own := 0
+			for _, o := range rec.Out {
+				if o.Kind == "obs" {
+					own++
+				}
+			}
+			if own > 0 && len(got) == 0 {
+				if lb := rig.TakeLoopback(5 * time.Second); lb != nil {
+					got = append(got, lb)
+				}
+			}
+			pending[e.Msg] = append(pending[e.Msg], got...)
+			if own > len(got) {
+				rec.Event.Note = "own observation broadcast during a gossip burst but its loop-back never reached the observation queue"
+				rec.LoopbackLost = true
+			}
+		} else if e.Kind == "msg" {
 			for _, o := range rec.Out {
 				if o.Kind == "obs" {
 					if lb := rig.TakeLoopback(5 * time.Second); lb != nil {
 						pending[e.Msg] = append(pending[e.Msg], lb)
 					} else {
 						rec.Event.Note = "own observation broadcast but no loop-back offered within 5s"
+						rec.LoopbackLost = true
 					}
 				}
 			}
@@ -691,6 +715,11 @@ func Gen(rng *rand.Rand, o GenOpts) *Scenario {
 			if (evs[i].Kind == "obs" || evs[i].Kind == "inbound") && (evs[j].Kind == "obs" || evs[j].Kind == "inbound") {
 				evs[i], evs[j] = evs[j], evs[i]
 			}
+		}
+	}
+	for i := range evs {
+		if evs[i].Kind == "msg" && rng.Intn(6) == 0 {
+			evs[i].Variant = "burst"
 		}
 	}
 	restartNote := ""
